@@ -22,7 +22,7 @@ E32 = tol.EPS32
 
 
 def plan(tier, seed):
-    n = 400 if tier == 'quick' else 4000
+    n = 400 if tier == 'quick' else 16000
     return [('terrain', i) for i in range(n)]
 
 
